@@ -123,13 +123,15 @@ func (e *Engine) FunctionsFor(prop string) []string {
 		if ct.Trusted || ct.Inline {
 			continue
 		}
-		if strings.HasPrefix(k, "var ") {
+		if strings.HasPrefix(k, "var ") || strings.Contains(k, "$") {
 			continue
 		}
 		if fn := e.Funcs[k]; fn == nil || len(fn.Blocks) == 0 {
 			continue
 		}
-		if contractMentions(ct, prop) {
+		// C15 (no self-inflicted failure): every function under contract contributes its
+		// run-time-safety obligations
+		if prop == "C15" || contractMentions(ct, prop) {
 			out = append(out, k)
 		}
 	}
